@@ -42,6 +42,34 @@ STRENGTHENED = {
     "C18_4": "C18: gates without qubit parameters / with untyped parameters in the idle and stretch pools",
     "C20_1": "C01: two statements in one program differing in one number (hash coincidences); C20 pool gets such programs too",
     "C01_4": "C01: one pulse module imported twice",
+    "C01_5": "C01: builder route with numpy.float64 scalars",
+    "C02_5": "C02 Space 6: one comment (incl. \\r \\v \\f FS GS RS NEL LS PS bodies) in front of the first offending token of every near miss",
+    "C02_7": "C02: header-only parse before the full parse of each pool program (and C16 call header-full)",
+    "C03_5": "C03: wide registers (one gate on every ordered tuple of 4-6 qubits, two gates on 4)",
+    "C03_8": "caught by C18 (keyword call in another order); C03 builds its programs from text",
+    "C04_5": "universe: macro m9 (register parameter indexed by another parameter)",
+    "C04_6": "universe: parameterless macros m10 / m11 whose nested calls sit inside loops",
+    "C06_5": "framework: a history-dependent failure is replayed with the shards its worker ran before",
+    "C07_8": "universe: macro m13 (parameter named like the source register of a header alias); caught by C04",
+    "C08_5": "C08: the same nest with textually identical subcircuits",
+    "C08_7": "C15: a second job of the same backend object; caught by C15",
+    "C09_6": "C09: caller's definitions under the standard names (situation by-def-std)",
+    "C09_7": "C09: a later circuit in which this program's macro names are plain gates",
+    "C11_8": "NOT CAUGHT: needs a native gate with an INT parameter called with an integral float at top level; no fixture gate has an INT parameter",
+    "C13_5": "universe: second calls m3 q[2] / m12 q of macros that pass their parameter on",
+    "C13_6": "C13: branches that name qubits through whole-register aliases",
+    "C14_5": "C14: positions size-vs-single, size-vs-slice, start-vs-single",
+    "C14_6": "C14: wrong-way slices; an index into an empty alias is judged out of range",
+    "C15_5": "C15: wide registers (5-10 qubits, boundary outcomes)",
+    "C15_6": "C15: one job executed three times, every result judged again after each execution",
+    "C15_8": "C15: gate lists written from the highest qubit down",
+    "C16_5": "C16: calls import-first / hdr-after-body (errors raised inside grammar actions)",
+    "C16_6": "C16: seeds one replacement away from aliasing a let",
+    "C16_7": "C16: emulations sharing one gate table object over different alias slices",
+    "C16_8": "C16 Space 3: long layout runs in a child process under a wall-clock limit",
+    "C17_7": "NOT CAUGHT: needs two anonymous Q.let of equal value; the harness matches anonymous lets by value and gives them distinct values",
+    "C18_7": "C18: definitions called once before stretched_gates (flag bit 1)",
+    "C20_7": "C20: pool gets C07's scope-probe programs",
 }
 rows = []
 for f in sorted(glob.glob('/verif/seeded/*/meta.json')):
